@@ -23,6 +23,12 @@ CHECKS = {
         text="Every single fault and pair of faults at every rail call site of 2-3 turn conversations, both rail polarities, both Colang versions; generate must return, the reply must be refusal / internal error and never unapproved LLM text, and the following turn is judged with all rails active. Exhaustive within the bound; one known finding (Colang 2.x inverted-polarity rails fail open).",
         note="trusted: as C01; faults are exceptions raised by custom rail actions (LLM provider failures excluded by the statement); dialog-action faults not yet enumerated",
         design_ref="6/C03"),
+    "C05": dict(
+        category="model_checking", engine="Resolve",
+        technique="conflict-resolution rule as TLA+ judge (Resolve.Allowed over exact rational scores); TLC enumerates competitor families; each replayed in the real interpreter under every scripted tie-break pick (random.choice replaced by a scripted pick); observed per-flow outcome and Start events judged by TLC",
+        text="All families of 2 competing flows and seeded partitions of 3-/4-flow families (specificity 0..3 unmentioned parameters, priority 1.0/0.5, loop parent/named/NEW, identical vs different actions, match fits or not), started or activated, every tie-break pick: per loop exactly one Start for a most-specific winner, identical actions co-win, all others fail, other loops and non-fitting flows untouched.",
+        note="trusted: program rendering, observation of flow status/position, Resolve.tla; score vectors of length 1 (no wrapper flows); which tied head wins is left open",
+        design_ref="6/C05"),
     "C06": dict(
         category="model_checking", engine="Props2",
         technique="TLA+ lifetime predicates (Props2: L1 keeper, L2 action life-cycle monitor, L2b stop-on-end) evaluated by TLC on states/steps/traces recorded from the real interpreter (generated programs with exhaustive short histories + random walks incl. action events early/late/twice/never, formula and library programs, the repository's own tests)",
